@@ -260,6 +260,8 @@ def base_axioms():
     # boxed ints: equal integers are the same value
     a, b = z3.Const("ax_a", V), z3.Const("ax_b", V)
     ax.append(z3.ForAll([a, b], z3.Implies(z3.And(is_int(a), is_int(b), ival(a) == ival(b)), a == b), patterns=[z3.MultiPattern(is_int(a), is_int(b))]))
+    # objects that exist at function entry belong to no comprehension family
+    ax.append(z3.ForAll([v], z3.Implies(Alloc0(v), SkFam(v) == 0), patterns=[SkFam(v)]))
     ax += BOX_FACTS
     n = z3.Int("ax_n")
     ax.append(z3.ForAll([n], z3.And(is_int(box(n)), ival(box(n)) == n, Alloc0(box(n))), patterns=[box(n)]))
